@@ -47,6 +47,7 @@ static struct th {
 static volatile int nth = 1, cur = 0;
 static __thread int me = 0;
 static uint64_t progress_epoch = 1;
+static void* last_pc;
 static int tick_fd = -1;
 
 #define TRC(...) do { if (fmc_tracing) fmc_rawlog(__VA_ARGS__); } while (0)
@@ -124,7 +125,7 @@ void fmc_progress(void) { if (fmc_is_exploring) progress(); }
 static void capture_pending(struct th* t) {
   if (t->pw_addr) {
     if (memcmp(t->pw_addr, t->pw_old, t->pw_sz) != 0) {
-      TRC("[%lu] T%d progress (plain write %p)\n", (unsigned long)TR->steps, me, t->pw_addr);
+      if (fmc_tracing > 1) fmc_rawlog("[%lu] T%d progress (plain write %p)\n", (unsigned long)TR->steps, me, t->pw_addr);
       progress();
     }
     t->pw_addr = 0;
@@ -141,7 +142,7 @@ static void capture_pending(struct th* t) {
 
 static void do_switch(int to) {
   if (to == me) return;
-  TRC("[%lu] switch T%d -> T%d\n", (unsigned long)TR->steps, me, to);
+  TRC("[%lu] switch T%d -> T%d (T%d was about to execute pc=%p)\n", (unsigned long)TR->steps, me, to, me, last_pc);
   if (fmc_tso) {
     if (T[me].sb.active) memcpy(T[me].sb.addr, T[me].sb.oldv, T[me].sb.sz);
     if (T[to].sb.active) {
@@ -355,6 +356,7 @@ static void sched_point(void* addr, int sz, int w, int always, void* pc, int flu
   capture_pending(t);
   if (++TR->steps > fmc_horizon) fmc_finish(V_HORIZON, "horizon");
   t->sp = (uintptr_t)__builtin_frame_address(0);
+  last_pc = pc;
   uint32_t sh = sitehash(pc);
   int shared_loc = 1;
   if (addr) {
